@@ -375,6 +375,15 @@ pub fn run(ctx: &mut Ctx) -> Report {
 		}
 	}
 	cases.push(Opts { cert: "leaf".into(), ca: "authority".into(), dir_exists: false, ..base.clone() });
+	// names that look like another kind of name: everything that is not an IP literal is a DNS name
+	cases.push(Opts { san: vec!["ops@crabs.example".into(), "spiffe://crabs.example/workload".into(), "http://a.example/".into(), "a.example:443".into(), "user@10.0.0.1".into(), "urn:uuid:0".into()], server: true, ..base.clone() });
+	cases.push(Opts { san: vec!["mail@x".into()], ..base.clone() });
+	// long subject strings: the option set is valid whatever their length
+	for n in [63usize, 64, 65, 100, 200, 1000] {
+		cases.push(Opts { cn: Some("c".repeat(n)), org: Some("o".repeat(n)), ..base.clone() });
+	}
+	cases.push(Opts { cn: Some("é".repeat(33)), org: Some("ö".repeat(40)), san: vec!["x.example".into()], ..base.clone() });
+	cases.push(Opts { cn: Some(format!("{}.example.com", "sub.".repeat(20))), ..base.clone() });
 	// output directories whose name is not ASCII, and not text at all (a path is octets)
 	for leaf in [&b"caf\xc3\xa9"[..], &b"caf\xe9"[..], &b"\xff\xfe"[..], &b"with space"[..], &b"cl\xe9s.d"[..]] {
 		for exists in [true, false] {
